@@ -13,9 +13,9 @@ PROP = "C11"
 GENERATED = ['DtypeTables', 'Core', 'SrcHints', 'SrcDecorate', 'HintLoop']  # generated files this check's tie depends on
 LEAN_MODULES = ["Properties.C11", "Properties.Core", "Properties.Prov.Hints", "Properties.Prov.Decorate", "Properties.CoreHints"]
 RULE = (
-    "exhaustive over flat tuple hints of length 1..4 (quick) / 1..5 (thorough) with annotated / plain positions mixed, as parameter and as "
+    "exhaustive over flat tuple hints of length 1..4 (quick) / 1..5 (thorough) with annotated / plain positions mixed (plain = `int` or `Annotated[int, 'count']`), as parameter and as "
     "return, each element conforming, violating its own literal, or violating a binding shared with another parameter (a), values of the "
-    "declared length; judged by the oracle over the flattened entry list with display names p, p[1], ... non-trivial = distinct line "
+    "declared length; one array object at two annotated positions (the second conforming or violating its own annotation); judged by the oracle over the flattened entry list with display names p, p[1], ... non-trivial = distinct line "
     "with >=1 annotated tuple position"
 )
 ELEMS = [("FloatTensor,0,a 2", (3, 2), (3, 5), (4, 2)), ("IntTensor,0,a", (3,), None, (5,)), ("-", None, None, None)]
@@ -60,6 +60,8 @@ def cases(tier, rng, run):
                             c0, _o, sh0 = specs[j].split(",", 2)
                             specs[j] = f"{c0},1,{sh0}"
                             vals[j] = "N"
+                    # a plain position may also be spelled `Annotated[int, <metadata that is no dltype annotation>]`
+                    specs = [("-a" if sp == "-" and rng.random() < 0.5 else sp) for sp in specs]
                     p = f"P|t|T|{';'.join(specs)}|U:{';'.join(vals)}"
                     first = "P|x|S|FloatTensor,0,a|T,2:float32,3"
                     out.append(Case(f"CALL\tfunc:pos\t-\t\t{first}\t{p}", f"param{n}"))
@@ -71,6 +73,22 @@ def cases(tier, rng, run):
                     if fault_kind == "lit" and rng.random() < 0.3:
                         out.append(Case(f"CALL\tnt:pos\t-\t\t{first}\t{p}", f"nt{n}"))
                         out.append(Case(f"CALL\tdc:kw\t-\t\t{first}\t{p}", f"dc{n}"))
+    # the very same array OBJECT at two annotated positions (impl.make_tensor hands out one object per dtype and shape): the
+    # second occurrence is checked against its own annotation like any other value
+    same = "T,0:float32,3.2"
+    for n in (2, 3, 4):
+        for i in range(n):
+            for j in range(i + 1, n):
+                for second in ("FloatTensor,0,2 a", "FloatTensor,0,a 2", "IntTensor,0,a 2", "FloatTensor,0,a"):
+                    specs = ["-"] * n
+                    vals = ["X"] * n
+                    specs[i], vals[i] = "FloatTensor,0,a 2", same
+                    specs[j], vals[j] = second, same
+                    p = f"P|t|T|{';'.join(specs)}|U:{';'.join(vals)}"
+                    out.append(Case(f"CALL\tfunc:pos\t-\t\t{p}", "sameobj"))
+                    out.append(Case(f"CALL\tfunc:kw\t-\t\tP|k|S|-|X\tR|T|{';'.join(specs)}|U:{';'.join(vals)}", "sameobj"))
+                    out.append(Case(f"CALL\tfunc:pos\t-\t\tP|x|S|FloatTensor,0,a 2|{same}\t{p}", "sameobj"))
+                    out.append(Case(f"CALL\tfunc:pos\t-\t\tP|x|S|{second}|{same}\tR|T|{';'.join(specs)}|U:{';'.join(vals)}", "sameobj"))
     # the same annotation OBJECT used as a plain hint and inside a tuple hint (caches keyed by value must not mix them up)
     t2, t3 = "T,0:float32,2", "T,0:float32,3"
     for first, second in (("x=T0:0|(T0:0)", "x=(T0:0)|T0:0"), ("x=(T0:0)|T0:0", "x=T0:0|(T0:0)"), ("x=T0:0|(T0:0+T0:0)", "x=(T0:0)|(T0:0)")):
